@@ -243,6 +243,7 @@ def seed_effect(name, tier, placement):
     return _effect[key]
 
 
+TIER_OF_RUN = ["quick"]
 _poisoned = [False]      # a server thread of this worker process is stuck for good (holding a class-level parser lock)
 
 
@@ -289,7 +290,10 @@ def _run_hostile(hostile, placement, need_fo=False, probes=True, allowed=(), wan
             try:
                 conn_id = R.decode_reply_frame(r[0])["cip"]["O_T_connection_ID"]
             except Exception as exc:
-                raise RuntimeError("harness: forward open failed in preamble: %r %r" % (r, exc))
+                # the preamble is valid traffic on a fresh session: if it is not served, an EARLIER input broke the simulator
+                bad.append(("valid-traffic-broken", "a valid Register + Forward Open on a new session is no longer answered properly "
+                            "(replies %r: %s: %s) -- state left behind by earlier input in this process" % (r, type(exc).__name__, exc)))
+                return (bad, None) if want_store else bad
     if need_fo and conn_id:
         # patch the connection id of a unit-data seed so the *unmutated* seed would be valid here
         hostile = patch_conn(hostile, conn_id)
@@ -371,7 +375,27 @@ def patch_conn(frame, conn_id):
     return frame
 
 
-def shard(acc, item, tier, seed):
+def shard(acc, item, tier, seed, stop_at=None):
+    """stop_at: replay mode (run this shard's inputs in order up to and including input number stop_at, in a fresh process)"""
+    what = item[0]
+    counter = [0]
+    real_violation = acc.violation
+
+    def violation(kind, case, msg):
+        case = dict(case)
+        case["tier"] = tier
+        case["shard"] = list(item)
+        case["upto"] = counter[0]
+        real_violation(kind, case, msg)
+
+    acc.violation = violation
+    try:
+        _shard(acc, item, tier, seed, stop_at, counter)
+    finally:
+        del acc.violation
+
+
+def _shard(acc, item, tier, seed, stop_at, counter):
     what = item[0]
     if _poisoned[0]:
         acc.count("shards_skipped_in_a_worker_with_a_stuck_server_thread")
@@ -389,6 +413,9 @@ def shard(acc, item, tier, seed):
             n += 1
             if n % K != k:
                 continue
+            counter[0] += 1
+            if stop_at is not None and counter[0] > stop_at:
+                return
             acc.ev()
             acc.ntc()
             acc.outcome(label[0])
@@ -403,6 +430,9 @@ def shard(acc, item, tier, seed):
         for a in first_bytes:
             cases = [bytes([a])] + [bytes([a, b]) for b in second]
             for hostile in cases:
+                counter[0] += 1
+                if stop_at is not None and counter[0] > stop_at:
+                    return
                 acc.ev()
                 acc.ntc()
                 acc.outcome("short")
@@ -416,6 +446,9 @@ def shard(acc, item, tier, seed):
             for ln in lens:
                 for sess in (0, SESSION):
                     hostile = struct.pack("<HHII", c, ln, sess, 0) + b"hdr-ctx." + b"\x00" * 4
+                    counter[0] += 1
+                    if stop_at is not None and counter[0] > stop_at:
+                        return
                     acc.ev()
                     acc.ntc()
                     acc.outcome("header")
@@ -460,6 +493,22 @@ def guards(acc, ctx):
 
 
 def replay(case):
+    if case.get("shard"):
+        # re-run the whole shard prefix in this fresh process: state leaked by earlier inputs of the shard is reproduced
+        from mc import core
+
+        def tup(x):
+            return tuple(tup(v) for v in x) if isinstance(x, list) else x
+        acc = core.Acc()
+        item = tup(case["shard"])
+        if item[0] == "short":
+            item = (item[0], list(item[1]), list(item[2]))
+        elif item[0] == "headers":
+            item = (item[0], list(item[1]), list(item[2]))
+        shard(acc, item, "thorough" if case.get("tier") == "thorough" else TIER_OF_RUN[0], 0, stop_at=case["upto"])
+        msgs = [v["msg"] for v in acc.violations if v["case"].get("upto") == case["upto"]]
+        if msgs:
+            return msgs
     allowed = ()
     if case.get("seed") not in (None, "short", "header"):
         allowed = (seed_effect(case["seed"], "thorough", case["placement"]),)
